@@ -1,3 +1,250 @@
 import Driver.Common
-/-! Driver for property C11 (stub: the model for this property is not built yet). -/
-def main : IO Unit := Driver.run (fun (s : Unit) _ => (s, "unimplemented")) ()
+import TxdbusModel.Net.Compose
+/-!
+Line-protocol driver of the C11 network model (`TxdbusModel/Net/Compose.lean`).
+
+Values (`V`) are opaque tokens (the harness sends the hex of a canonical text of the wire-normalised
+value); strings travel as `Driver.charsToHex` tokens ("-" = empty); `~` is None.
+
+Scenario header (each answers `ok`):
+  reset <n> <firstSerial_0> … <firstSerial_{n-1}>
+  export <j> <path> <k> { <ifname> <m> { <name> <sigIn> <sigOut> <nargs> <nret> }^m }^k
+  intro <j> <path> <V>                      World.introspect j path = some V
+  managed <j> <path> <V>                    World.managed j path = V
+  unenc <sig> <n> <V>^n <dbusName|~> <cls> <text>      World.encErr sig body = some exc
+  badname <name>                            World.validErrorName name = false
+Steps:
+  call <c> proxy <dest> <path> <k> {iface…}^k <kw|~> <member> <n> <V>^n
+  call <c> raw <dest> <path> <iface|~> <member> <sig> <n> <V>^n
+        -> sent <serial> | attributeError | typeError | encodeError | noSuchClient
+  toBus <c>                                 -> idle | fwd <d> <msg> | drop <msg>
+  toClient <c> <beh>                        -> idle | recv <msg> <effects…>
+        beh = deferred | obj <V> | seq <self> <n> <V>^n | raised <dbusName|~> <cls> <text>
+  resolve <c> <tok> <result>                -> idle | <effects…>          (result = beh without `deferred`)
+  quiescent                                 -> yes | no
+Effects, in this order: inv(<sender>,<serial>,<path>,<iface>,<member>,[args]) exec(<tok>) sent(<msg>)
+done(<serial>,<outcome>).  Outcomes print as the harness sees them: `val,<token>` where the token of
+`callback(body)` (a Python list) is the valcodec list token `L_<n>_<elems>` and `callback(None)` is `N`.
+-/
+open Txdbus.Net
+
+namespace Driver.C11
+
+abbrev V := String
+
+structure St where
+  net : Net V
+  exports : List (Nat × ExpObj)
+  intro : List (Nat × String × V)
+  managed : List (Nat × String × V)
+  unenc : List (String × List V × Exc)
+  badnames : List String
+
+def St.world (s : St) : World V :=
+  { exports := fun j => (s.exports.filter (fun e => e.1 == j)).map (·.2),
+    introspect := fun j p => (s.intro.find? (fun e => e.1 == j && e.2.1 == p)).map (·.2.2),
+    managed := fun j p => ((s.managed.find? (fun e => e.1 == j && e.2.1 == p)).map (·.2.2)).getD "",
+    encErr := fun sig body => (s.unenc.find? (fun e => e.1 == sig && e.2.1 == body)).map (·.2.2),
+    validErrorName := fun n => !(s.badnames.contains n) }
+
+def St.init : St :=
+  { net := Net.init 0 (fun _ => 1), exports := [], intro := [], managed := [], unenc := [], badnames := [] }
+
+/-! ### token parsers -/
+
+def str? (t : String) : Option String := (Driver.hexToChars? t).map String.ofList
+def optStr? (t : String) : Option (Option String) := if t == "~" then some none else (str? t).map some
+def nat? (t : String) : Option Nat := t.toNat?
+
+def takeN {α : Type} (f : List String → Option (α × List String)) : Nat → List String → Option (List α × List String)
+  | 0, ts => some ([], ts)
+  | k + 1, ts => do
+    let (a, ts) ← f ts
+    let (as, ts) ← takeN f k ts
+    pure (a :: as, ts)
+
+def pVal : List String → Option (V × List String)
+  | t :: ts => some (t, ts)
+  | [] => none
+
+def pVals : List String → Option (List V × List String)
+  | t :: ts => do
+    let n ← nat? t
+    takeN pVal n ts
+  | [] => none
+
+def pMethod : List String → Option (MethodDecl × List String)
+  | a :: b :: c :: d :: e :: ts => do
+    pure ({ name := ← str? a, sigIn := ← str? b, sigOut := ← str? c, nargs := ← nat? d, nret := ← nat? e }, ts)
+  | _ => none
+
+def pIface : List String → Option (Iface × List String)
+  | a :: m :: ts => do
+    let (ms, ts) ← takeN pMethod (← nat? m) ts
+    pure ({ name := ← str? a, methods := ms }, ts)
+  | _ => none
+
+def pIfaces : List String → Option (List Iface × List String)
+  | k :: ts => do takeN pIface (← nat? k) ts
+  | [] => none
+
+def pExc : List String → Option (Exc × List String)
+  | a :: b :: c :: ts => do pure ({ dbusName := ← optStr? a, cls := ← str? b, text := ← str? c }, ts)
+  | _ => none
+
+def pResult : List String → Option (Result V × List String)
+  | "obj" :: v :: ts => some (.value (.obj v), ts)
+  | "seq" :: self :: ts => do
+    let (vs, ts) ← pVals ts
+    pure (.value (.seq self vs), ts)
+  | "raised" :: ts => do
+    let (e, ts) ← pExc ts
+    pure (.raised e, ts)
+  | _ => none
+
+def pBeh : List String → Option (Behaviour V × List String)
+  | "deferred" :: ts => some (.deferred, ts)
+  | ts => do
+    let (r, ts) ← pResult ts
+    pure (.now r, ts)
+
+/-! ### printers -/
+
+def hs (s : String) : String := Driver.charsToHex s.toList
+def ho (o : Option String) : String := match o with | none => "~" | some s => hs s
+def no (o : Option Nat) : String := match o with | none => "~" | some n => toString n
+def vals (vs : List V) : String := "[" ++ ",".intercalate vs ++ "]"
+
+def showReply : Reply V → String
+  | .ret sig body => "ret," ++ hs sig ++ "," ++ vals body
+  | .err name text => "err," ++ hs name ++ "," ++ hs text
+
+def showMsg : Msg V → String
+  | .call serial sender dest path iface member sig args =>
+    "call(" ++ toString serial ++ "," ++ no sender ++ "," ++ no dest ++ "," ++ hs path ++ "," ++ ho iface ++ ","
+      ++ hs member ++ "," ++ hs sig ++ "," ++ vals args ++ ")"
+  | .reply serial rs sender dest c =>
+    "reply(" ++ toString serial ++ "," ++ toString rs ++ "," ++ no sender ++ "," ++ no dest ++ "," ++ showReply c ++ ")"
+
+def showOutcome : Outcome V → String
+  | .none => "val,N"
+  | .single v => "val," ++ v
+  | .many vs => "val," ++ "_".intercalate ("L" :: toString vs.length :: vs)
+  | .remoteError n t => "remoteError," ++ hs n ++ "," ++ hs t
+  | .sigMismatch => "sigMismatch"
+
+def showInv (i : Invocation V) : String :=
+  "inv(" ++ no i.sender ++ "," ++ toString i.serial ++ "," ++ hs i.path ++ "," ++ hs i.iface ++ "," ++ hs i.member
+    ++ "," ++ vals i.args ++ ")"
+
+/-- What happened on client `c` between two states. -/
+def effects (old new : Client V) : List String :=
+  (new.invocations.drop old.invocations.length).map showInv
+  ++ (new.exec.filter (fun e => old.nextTok ≤ e.tok)).map (fun e => "exec(" ++ toString e.tok ++ ")")
+  ++ (new.up.drop old.up.length).map (fun m => "sent(" ++ showMsg m ++ ")")
+  ++ (new.completions.drop old.completions.length).map
+      (fun c => "done(" ++ toString c.1 ++ "," ++ showOutcome c.2 ++ ")")
+
+def showIssue : IssueResult → String
+  | .attributeError => "attributeError"
+  | .typeError => "typeError"
+  | .encodeError => "encodeError"
+  | .sent s => "sent " ++ toString s
+  | .noSuchClient => "noSuchClient"
+
+def join (xs : List String) : String := " ".intercalate xs
+
+/-! ### the step function -/
+
+def bad (s : St) (why : String) : St × String := (s, "error " ++ why)
+
+def doCall (s : St) (c : Nat) (req : CallReq V) : St × String :=
+  if c < s.net.n then
+    let r := (issue s.world (s.net.cl c) req).2
+    ({ s with net := step s.world s.net (.call c req) }, showIssue r)
+  else (s, showIssue .noSuchClient)
+
+def handle (s : St) (line : String) : St × String :=
+  match Driver.words line with
+  | "reset" :: n :: ts =>
+    match nat? n, ts.mapM nat? with
+    | some n, some firsts =>
+      ({ St.init with net := Net.init n (fun j => firsts.getD j 1) }, "ok")
+    | _, _ => bad s "reset"
+  | "export" :: j :: p :: ts =>
+    match nat? j, str? p, pIfaces ts with
+    | some j, some p, some (is, []) => ({ s with exports := s.exports ++ [(j, { path := p, ifaces := is })] }, "ok")
+    | _, _, _ => bad s "export"
+  | ["intro", j, p, v] =>
+    match nat? j, str? p with
+    | some j, some p => ({ s with intro := s.intro ++ [(j, p, v)] }, "ok")
+    | _, _ => bad s "intro"
+  | ["managed", j, p, v] =>
+    match nat? j, str? p with
+    | some j, some p => ({ s with managed := s.managed ++ [(j, p, v)] }, "ok")
+    | _, _ => bad s "managed"
+  | "unenc" :: sig :: ts =>
+    match str? sig, pVals ts with
+    | some sig, some (body, ts) =>
+      match pExc ts with
+      | some (e, []) => ({ s with unenc := s.unenc ++ [(sig, body, e)] }, "ok")
+      | _ => bad s "unenc exc"
+    | _, _ => bad s "unenc"
+  | ["badname", n] =>
+    match str? n with
+    | some n => ({ s with badnames := n :: s.badnames }, "ok")
+    | none => bad s "badname"
+  | "call" :: c :: "proxy" :: d :: p :: ts =>
+    match nat? c, nat? d, str? p, pIfaces ts with
+    | some c, some d, some p, some (is, kw :: mem :: ts) =>
+      match optStr? kw, str? mem, pVals ts with
+      | some kw, some mem, some (args, []) =>
+        doCall s c (.viaProxy { dest := d, path := p, ifaces := is } kw mem args)
+      | _, _, _ => bad s "call proxy tail"
+    | _, _, _, _ => bad s "call proxy"
+  | "call" :: c :: "raw" :: d :: p :: i :: mem :: sig :: ts =>
+    match nat? c, nat? d, str? p, optStr? i, str? mem, str? sig, pVals ts with
+    | some c, some d, some p, some i, some mem, some sig, some (args, []) =>
+      doCall s c (.raw d p i mem sig args)
+    | _, _, _, _, _, _, _ => bad s "call raw"
+  | ["toBus", c] =>
+    match nat? c with
+    | some c =>
+      if c < s.net.n then
+        match (s.net.cl c).up with
+        | [] => (s, "idle")
+        | m :: _ =>
+          let net' := step s.world s.net (.toBus c)
+          let m' := m.withSender c
+          let out := if net'.dropped.length > s.net.dropped.length then "drop " ++ showMsg m'
+                     else "fwd " ++ no m'.dest ++ " " ++ showMsg m'
+          ({ s with net := net' }, out)
+      else (s, "idle")
+    | none => bad s "toBus"
+  | "toClient" :: c :: ts =>
+    match nat? c, pBeh ts with
+    | some c, some (beh, []) =>
+      if c < s.net.n then
+        match (s.net.cl c).down with
+        | [] => (s, "idle")
+        | m :: _ =>
+          let net' := step s.world s.net (.toClient c beh)
+          ({ s with net := net' }, join (("recv " ++ showMsg m) :: effects (s.net.cl c) (net'.cl c)))
+      else (s, "idle")
+    | _, _ => bad s "toClient"
+  | "resolve" :: c :: tok :: ts =>
+    match nat? c, nat? tok, pResult ts with
+    | some c, some tok, some (res, []) =>
+      let net' := step s.world s.net (.resolve c tok res)
+      let eff := effects (s.net.cl c) (net'.cl c)
+      ({ s with net := net' }, if eff.isEmpty then "idle" else join eff)
+    | _, _, _ => bad s "resolve"
+  | ["quiescent"] =>
+    let q := (List.range s.net.n).all (fun j =>
+      (s.net.cl j).up.isEmpty && (s.net.cl j).down.isEmpty && (s.net.cl j).exec.isEmpty)
+    (s, if q then "yes" else "no")
+  | _ => bad s "unknown command"
+
+end Driver.C11
+
+def main : IO Unit := Driver.run Driver.C11.handle Driver.C11.St.init
